@@ -58,6 +58,10 @@ CHECKS["C04"] = dict(
     text="Proved for channel() and sync_channel(n>=1) used through send/try_send, ANY number of sender threads, ANY well-formed programs of send/clone/drop, ANY number of dispatches and ANY schedule (one mpsc enqueue/try_send, sender-count change, eventfd write/read, poll or try_recv per step): delivered ++ queued = sent (exactly once, in enqueue order, nothing invented); a non-empty queue or a pending disconnect always has a wake-up on its way (readable eventfd, a sender about to ping, or the loop inside its drain loop which ends with Empty/Closed or a self re-ping) whatever the batch limit; Closed is delivered at most once, only with no sender left and an empty queue, and removes the source. Known finding F9 (blocking send on sync_channel(0)) is reproduced by a scheduler witness every run and printed as KNOWN-FINDING. Correspondence: ~900 schedules per quick run on real threads vs the extracted model (step, yield-id and observation traces equal) + an oracle on the real traces.",
     note="std::sync::mpsc is an assumed linearizable FIFO; the blocking SyncSender::send and the rendezvous channel are outside the proved model (F9). Liveness ('completes as long as the loop keeps dispatching') is the no-stranded-wake invariant plus the poll-progress lemma, checked end-to-end only by the runs. No axioms.",
     technique="Coq proof (invariant by induction over arbitrary schedules) + controlled-scheduler differential correspondence on real threads", ref="DESIGN.md 4 (C04)")
+CHECKS["C11"] = dict(
+    text="Proved for ANY number of signalling threads with ANY programs of stop()/wakeup()/waker.wake(), ANY future script and ANY schedule (one atomic flag access, notify or wait per step): the loop is never blocked in its wait while a notification is pending (a wakeup issued just before the wait is kept); wakeup() ends the wait in progress or stays for the next one, which then returns at once; after stop()+wakeup() issued after the initial reset the loop is `told`, this is stable under every step of every thread, and the loop returns within three of its own steps (at most the iteration in progress); run() returns Ok / block_on returns None only after a stop request since it began; in block_on a set future_ready flag always has a way to make the loop poll again (before its swap, pending notification, or the waker about to notify). Correspondence: ~450 schedules per quick run with the loop thread REALLY blocking in epoll_wait (native-block detection), step/yield-id/observation traces equal to the extracted model, + an oracle on the real traces.",
+    note="Poller::notify/wait atomicity and stickiness are the assumed environment. 'After run() has begun' is read as 'after its initial store(false)': a stop() landing before that store is erased by it (recorded observation, DESIGN.md section 5). No axioms.",
+    technique="Coq proof (invariant by induction over arbitrary schedules, brute-force case analysis per step) + controlled-scheduler differential correspondence with native blocking", ref="DESIGN.md 4 (C11)")
 
 def main():
     props = [json.loads(l) for l in open(os.path.join(ROOT, "properties.jsonl"))]
